@@ -313,4 +313,5 @@ class Qasm3Validator:
             for idx in indices:
                 if idx in qubit_map[reg_name]:
                     return False
+            qubit_map[reg_name].update(indices)
         return True
